@@ -155,10 +155,25 @@ fn spurious_cases(ops: &[&str]) -> Vec<String> {
             v.push(format!("(bl {} {} {} spurious 1 1 600)", api, op, ctx));
         }
     }
+    // a live receiver spawned from inside the calling runtime (RX = livein), something pending / a full queue: the
+    // blocking call made on that runtime's own thread must still see the receiver drain
+    for (api, ctx) in [("tokio", "ct"), ("tokio", "mt"), ("sync", "ct")] {
+        for op in ops {
+            v.push(format!("(bl {} {} {} livein 1 1 3000)", api, op, ctx));
+        }
+    }
     v
 }
 
 const SLACK: Duration = Duration::from_millis(1500);
+
+/// RX = livein: the closure that spawns the receiver, to be run inside the calling runtime
+static START_INSIDE: std::sync::Mutex<Option<Box<dyn FnOnce() + Send>>> = std::sync::Mutex::new(None);
+fn start_inside() {
+    if let Some(start) = START_INSIDE.lock().unwrap().take() {
+        start();
+    }
+}
 
 #[derive(Clone, Copy, PartialEq, Debug)]
 enum Api {
@@ -211,6 +226,9 @@ struct Case {
     /// (hook H7 `emit_batcher::verif::wake_blocked_callers_spuriously`, what the OS may do at any time) at 0.45·T and
     /// 0.7·T: the call must still give up at ≈ T, not start a new full wait at every wakeup
     spurious: bool,
+    /// RX = livein: a live receiver that is SPAWNED FROM INSIDE the runtime the call is made in (with the same API), right
+    /// before the call — a receiver must run on its own thread and drivers wherever it was spawned from
+    spawn_inside: bool,
     rx: Rx,
     cap: usize,
     prefill: usize,
@@ -260,8 +278,9 @@ fn parse(line: &str) -> Option<Case> {
             _ => return None,
         },
         spurious: a[3].as_atom()? == "spurious",
+        spawn_inside: a[3].as_atom()? == "livein",
         rx: match a[3].as_atom()? {
-            "live" => Rx::Live,
+            "live" | "livein" => Rx::Live,
             "stalled" | "spurious" => Rx::Stalled,
             "gone" => Rx::Gone,
             "late" => Rx::Late,
@@ -800,7 +819,12 @@ fn run_blocking_inner(line: &str) -> String {
                 Api::Async => unreachable!(),
             };
         };
-        if c.rx == Rx::Live {
+        if c.spawn_inside {
+            if !matches!(c.ctx, Ctx::Ct | Ctx::Mt) || c.api == Api::Async {
+                return "bad-case".into();
+            }
+            *START_INSIDE.lock().unwrap() = Some(Box::new(start));
+        } else if c.rx == Rx::Live {
             start();
         } else {
             std::thread::spawn(move || {
@@ -839,14 +863,23 @@ fn run_blocking_inner(line: &str) -> String {
             Ctx::Mt => {
                 let rt = tokio::runtime::Builder::new_multi_thread().worker_threads(2).enable_all().build().unwrap();
                 let r = rt.block_on(async move {
-                    tokio::spawn(async move { call(api, op, &sender, timeout) }).await
+                    tokio::spawn(async move {
+                        start_inside();
+                        call(api, op, &sender, timeout)
+                    })
+                    .await
                 });
                 rt.shutdown_background();
                 r.unwrap_or(Out::Panic)
             }
             Ctx::Ct => {
                 let rt = tokio::runtime::Builder::new_current_thread().enable_all().build().unwrap();
-                let r = hcommon::catch(|| rt.block_on(async move { call(api, op, &sender, timeout) }));
+                let r = hcommon::catch(|| {
+                    rt.block_on(async move {
+                        start_inside();
+                        call(api, op, &sender, timeout)
+                    })
+                });
                 r.unwrap_or(Out::Panic)
             }
             Ctx::MtNoDrivers => {
